@@ -6109,6 +6109,7 @@ class CodegenCtx:
                 # Generate an explicit input check 
             # Generate the `inval` variable
             contents.add("uint8_t inval = " + ("**start" if ProgramData.do(ProgramFlag.INDIRECT_START_PTR) else "*start") + ";")
+            contents.add("(void)inval; // a parser that never looks at its input still compiles without warnings")
             contents.add()
             # Generate a target for states with actions that modify the state in an unpredictable way
             contents.add("repeatswitch:");
